@@ -140,6 +140,38 @@ def spec_optional(txt, pos):
     return 'LC-OPTIONAL' in prev
 
 
+def cbmc_results_text(stdout):
+    """parse cbmc's plain-text result listing (no traces: with --json-ui cbmc serialises a trace for every refuted
+    property, the vacuity canary included, which costs minutes for harnesses with large symbolic objects)"""
+    res = []
+    status = None
+    msgs = []
+    cur_file = cur_fn = None
+    seen = False
+    for line in stdout.splitlines():
+        m = re.match(r'^\[(\S+)\] (?:line (\d+) )?(.*): (SUCCESS|FAILURE|UNKNOWN|ERROR)$', line)
+        if m:
+            seen = True
+            res.append({'property': m.group(1), 'description': m.group(3), 'status': m.group(4),
+                        'sourceLocation': {'file': cur_file, 'line': m.group(2), 'function': cur_fn}})
+            continue
+        m = re.match(r'^(\S.*?) function (\S+)$', line)
+        if m:
+            cur_file, cur_fn = m.group(1), m.group(2)
+            continue
+        if line.startswith('VERIFICATION SUCCESSFUL'):
+            status = 'success'
+        elif line.startswith('VERIFICATION FAILED'):
+            status = 'failure'
+        elif line.startswith('VERIFICATION ERROR'):
+            status = 'error'
+        elif line.strip() and not re.match(r'^\*\* \d+ of \d+ failed', line):
+            msgs.append(line)
+    if not seen and status is None:
+        return None, None, msgs
+    return res, status, msgs
+
+
 def cbmc_results(stdout):
     try:
         data = json.loads(stdout)
@@ -183,6 +215,8 @@ def enum_tree_configs(env, tier, seed):
         nposs = 1
         for k in ncut:
             nposs *= (1 << k)
+        if int(env.get('NOCUTS', 0)):
+            nposs = 1
         picks = range(nposs) if nposs <= 16 else sorted(set([0, nposs - 1] + [rng.randrange(nposs) for _ in range(14)]))
         for pk in picks:
             cuts = 0
@@ -225,7 +259,15 @@ def enum_build_configs(env, tier, seed):
 def run_harness(unit, variant, h, tier='quick', keep=False):
     if h.get('enumerate') and not h.get('_cfg'):
         cfile, meta = extract(unit, variant)
-        if h['enumerate'] in ('tree', 'build'):
+        if h['enumerate'] == 'tree2':
+            # two independent trees (source / target): pair two seeded enumerations
+            import random
+            seed = int(os.environ.get('VERIF_SEED', '0'))
+            c1 = enum_tree_configs(meta['defines'], tier, seed)
+            c2 = enum_tree_configs(meta['defines'], tier, seed + 1)
+            random.Random(seed * 31 + 5).shuffle(c2)
+            cfgs = [dict(a, CFG_OCC2=b['CFG_OCC'], CFG_CUTS2=b['CFG_CUTS']) for a, b in zip(c1, c2)]
+        elif h['enumerate'] in ('tree', 'build'):
             cfgs = (enum_tree_configs if h['enumerate'] == 'tree' else enum_build_configs)(meta['defines'], tier, int(os.environ.get('VERIF_SEED', '0')))
         else:
             # explicit grid, e.g. enumerate=CFG_NS:0..2;CFG_NT:0..2
@@ -236,6 +278,8 @@ def run_harness(unit, variant, h, tier='quick', keep=False):
                 lo, _, hi = rng_.partition('..')
                 axes.append([(k, x) for x in range(int(lo), int(hi) + 1)])
             cfgs = [dict(c) for c in itertools.product(*axes)]
+        if os.environ.get('VERIF_DEBUG_NCFG'):
+            cfgs = cfgs[:int(os.environ['VERIF_DEBUG_NCFG'])]   # debugging aid only (never set by the registered commands)
         agg = None
         with concurrent.futures.ThreadPoolExecutor(max_workers=NPROC) as ex:
             futs = []
@@ -332,7 +376,7 @@ def run_harness(unit, variant, h, tier='quick', keep=False):
         i = checks.index('--sat-solver')
         del checks[i:i + 2]
         checks += ['--' + h['solver'].split('-')[0], '--fpa']
-    cb = ['cbmc', gb2] + checks + ['--json-ui', '--trace']
+    cb = ['cbmc', gb2] + checks   # plain-text results; traces are fetched in a second (--json-ui --trace) run, only for refuted obligations
     if h['unwind']:
         cb += ['--unwind', str(eval_int(h['unwind'], env))]
     if h['unwindset']:
@@ -345,7 +389,8 @@ def run_harness(unit, variant, h, tier='quick', keep=False):
     if ob:
         cb += ['--object-bits', str(ob)]
     for fl in h['flags']:
-        cb.append('--' + fl)
+        cb.append('--' + fl.split(':')[0])
+        cb += fl.split(':')[1:]
     tmo = int(h['timeout'] or unit.get('timeout', 600))
     if tier == 'thorough':
         tmo *= 3
@@ -356,7 +401,7 @@ def run_harness(unit, variant, h, tier='quick', keep=False):
     if rc == -999:
         r.update(status='infra', reason='cbmc timeout after %ds' % tmo)
         return r
-    res, status, msgs = cbmc_results(so)
+    res, status, msgs = cbmc_results_text(so)
     if res is None:
         r.update(status='infra', reason='cbmc gave no result (rc=%s): %s' % (rc, (so[-1500:] + se[-1500:])))
         return r
@@ -400,6 +445,17 @@ def run_harness(unit, variant, h, tier='quick', keep=False):
     r['undecided'] = len(undecided)
     if failed:
         r['status'] = 'fail'
+        # second run: counterexample traces for (at most three of) the refuted obligations only
+        # (--trace on the vacuity canary alone can cost minutes of JSON for large symbolic objects)
+        want = [o for o in failed if o.get('name')][:3]
+        cb2 = cb + ['--json-ui', '--trace'] + sum([['--property', o['name']] for o in want], [])
+        rc2, so2, se2, dt2 = sh(cb2, timeout=min(tmo, 900), mem_mb=int(h['mem'] or 16000))
+        if rc2 != -999:
+            res2, _, _ = cbmc_results(so2)
+            for p in (res2 or []):
+                for o in want:
+                    if p.get('property') == o['name'] and p.get('trace'):
+                        o['trace'] = p.get('trace')
     elif undecided:
         r['status'] = 'infra'
         r['reason'] = '%d obligations undecided (%s) without any refuted one' % (len(undecided), undecided[0]['status'])
@@ -641,6 +697,9 @@ def check(prop, tier, seed=0):
         'property_id': prop, 'tier': tier, 'seed': seed, 'level': pc.get('level', 'proof'),
         'coverage': {
             'obligations': n_obl, 'discharged': n_ok,
+            'evaluations': sum(int(r.get('configs') or 1) for r in results),
+            'distinct_nontrivial': sum(int(r.get('configs') or 1) for r in results if r.get('status') in ('pass', 'fail') and len(r.get('obligations', [])) > 0),
+            'rule': 'one evaluation = one cbmc run of one harness (one function contract, lemma or bounded stand-in) for one template variant and, for enumerated harnesses, one concrete configuration; all are distinct by construction (different harness, variant or configuration); a run is non-trivial when it generated at least one obligation and its vacuity canary after the call was reachable (otherwise the run is reported as infra, exit 2)',
             'checker_cmd': 'goto-cc --function H unit.c && goto-instrument --dfcc H [--enforce-contract F] [--replace-call-with-contract G]* --apply-loop-contracts && cbmc ' + ' '.join(CBMC_CHECKS) + ' [--unwind N] (SAT back end, CBMC 6.11)',
             'trusted_base': pc.get('trusted_base', []) + COMMON_TRUST,
             'functions_under_contract_enforced': sorted(funcs),
